@@ -1084,7 +1084,7 @@ def pool_family(run, replay):
 # ------------------------------------------------------------------------------------------------
 # the command-line layer of the edit and calc families (gotree binary built from /repo, one process per call)
 
-CLI_CASES = {"C05": (240, 4000), "C06": (240, 4000), "C07": (240, 4000), "C17": (96, 1600), "C15": (240, 4000),
+CLI_CASES = {"C05": (240, 4000), "C06": (240, 4000), "C07": (240, 4000), "C17": (96, 1600), "C15": (240, 4000), "C03": (96, 1600),
              "C08": (160, 3000), "C09": (160, 3000), "C10": (96, 1600), "C12": (240, 4000), "C14": (240, 4000), "C16": (240, 4000),
              "C11": (160, 3000)}
 
